@@ -258,6 +258,13 @@ func fillAllTransitions(forward *NFA, builder *Builder, reverseEdges map[StateID
 
 		edges := reverseEdges[fwdID]
 
+		if isStart && fwdID == fwdUnanchored && fwdUnanchored != fwdAnchored {
+			// The only incoming edge of the unanchored start is its own (?s:.)*? loop.
+			// Reversing that loop would let every reverse match run on to the left
+			// of the real match start: the proxy stays epsilon -> match.
+			continue
+		}
+
 		if isStart && hasIncoming {
 			fillStartStateWithIncoming(builder, revID, edges, revStateMap, matchID)
 		} else {
@@ -400,48 +407,37 @@ func fillReverseState(builder *Builder, revID StateID, edges []reverseEdge, revS
 	fillSparseState(builder, revID, byteRangeEdges, revStateMap)
 }
 
-// fillStartStateWithIncoming handles forward start states that have incoming edges (loops)
-// The proxy state is already an epsilon -> match, but we need to add the loop transitions
+// fillStartStateWithIncoming handles forward start states that have incoming edges (loops).
+// The proxy state is already an epsilon -> match; it becomes
+//
+//	proxyID: split -> (ordinary reverse state for the incoming edges), match
+//
+// The incoming edges keep their kind: a byte-range edge into the forward start
+// (e.g. the loop body of `[a-z]*foo`) must still consume that byte in reverse.
 func fillStartStateWithIncoming(builder *Builder, proxyID StateID, edges []reverseEdge, revStateMap map[StateID]StateID, matchID StateID) {
-	// The proxy is currently epsilon -> match
-	// If we have incoming edges (from loops), we need to create a split:
-	// proxyID: split -> (transitions from incoming edges), match
-
-	// Collect targets from incoming edges
-	var loopTargets []StateID
+	// Keep only edges whose source state exists in the reverse NFA
+	// (sources in the skipped unanchored prefix are not mapped).
+	var kept []reverseEdge
 	for _, edge := range edges {
-		if revTarget, ok := revStateMap[edge.from]; ok {
-			loopTargets = append(loopTargets, revTarget)
+		if _, ok := revStateMap[edge.from]; ok {
+			kept = append(kept, edge)
 		}
 	}
 
-	if len(loopTargets) == 0 {
-		// No actual targets, keep the epsilon -> match
+	if len(kept) == 0 {
+		// No actual sources, keep the epsilon -> match
 		return
 	}
 
-	// We need to convert the proxy into a split that goes to both:
-	// 1. The loop targets (to continue matching)
-	// 2. The match state (to accept)
+	loopID := allocatePlaceholder(builder, kept)
+	fillReverseState(builder, loopID, kept, revStateMap)
 
-	// For a single loop target: split -> loopTarget, match
-	// For multiple loop targets: split -> split(targets...), match
-	if len(loopTargets) == 1 {
-		// Change proxy from epsilon to split
-		s := &builder.states[proxyID]
-		s.kind = StateSplit
-		s.left = loopTargets[0]
-		s.right = matchID
-		s.next = InvalidState // Clear epsilon target
-	} else {
-		// Multiple loop targets - build a chain
-		loopChain := buildSplitChain(builder, loopTargets)
-		s := &builder.states[proxyID]
-		s.kind = StateSplit
-		s.left = loopChain
-		s.right = matchID
-		s.next = InvalidState
-	}
+	// Change proxy from epsilon to split: continue through the loop, or accept
+	s := &builder.states[proxyID]
+	s.kind = StateSplit
+	s.left = loopID
+	s.right = matchID
+	s.next = InvalidState // Clear epsilon target
 }
 
 // fillEpsilonState fills a state for pure epsilon transitions
